@@ -717,8 +717,8 @@ func frDeepEq(a, b any) (bool, string) {
 
 // frDeepEqValue additionally ignores the fields that only CACHE a wire length (what Len() is
 // computed from; their agreement with the octets is the subject of C04_LenAgrees, not of
-// C04_Equal): PathAttribute.Length, the extended-length bit of PathAttribute.Flags and
-// OpaqueNLRI.Length.
+// C04_Equal): PathAttribute.Length, the extended-length bit of PathAttribute.Flags,
+// OpaqueNLRI.Length and TunnelEncapTLV.Length.
 func frDeepEqValue(a, b any) (bool, string) {
 	return frEqV(reflect.ValueOf(a), reflect.ValueOf(b), "", 0, true)
 }
@@ -726,6 +726,7 @@ func frDeepEqValue(a, b any) (bool, string) {
 var (
 	frTypPathAttribute = reflect.TypeOf(PathAttribute{})
 	frTypOpaqueNLRI    = reflect.TypeOf(OpaqueNLRI{})
+	frTypTunnelTLV     = reflect.TypeOf(TunnelEncapTLV{})
 )
 
 func frEqV(a, b reflect.Value, path string, depth int, loose bool) (bool, string) {
@@ -797,7 +798,7 @@ func frEqV(a, b reflect.Value, path string, depth int, loose bool) (bool, string
 			return true, ""
 		}
 		for i := 0; i < a.NumField(); i++ {
-			if loose && a.Type() == frTypOpaqueNLRI && a.Type().Field(i).Name == "Length" {
+			if loose && (a.Type() == frTypOpaqueNLRI || a.Type() == frTypTunnelTLV) && a.Type().Field(i).Name == "Length" {
 				continue
 			}
 			if ok, p := frEqV(a.Field(i), b.Field(i), path+"."+a.Type().Field(i).Name, depth+1, loose); !ok {
